@@ -323,6 +323,16 @@ def run(ctx):
               must_reject=(d > 0), must_accept=(cap + d + 4 <= cap), size_errors=("LimitRequestHeaders",),
               key=("trailercap", d), read_body=True)
         ctx.hist("family", "trailer-block")
+    # the same for the header block of the request itself (one field of unlimited size, block at / around the cap)
+    spec = lp.make_spec(limit_request_fields=1, limit_request_field_size=0)
+    cap = 1 * (DEF_FIELD + 2) + 4
+    for d in (-8, -5, -4, -3, 0, 4):
+        fld = b"X: " + b"v" * (cap + d - 3)                      # idx of CRLFCRLF = cap + d
+        stream = b"GET / HTTP/1.1\r\n" + fld + b"\r\n\r\n"
+        judge("header block of %d bytes with limit_request_field_size=0, cap %d" % (cap + d, cap), spec, stream,
+              must_reject=(d > 0), must_accept=(cap + d + 4 <= cap), size_errors=("LimitRequestHeaders",),
+              key=("headercap", d))
+        ctx.hist("family", "header-block")
     # dropped fields (header_map = drop) count as well
     spec = lp.make_spec(limit_request_fields=2)
     judge("4 underscore fields dropped by header_map=drop, limit_request_fields=2", spec,
